@@ -165,6 +165,32 @@ def extract():
     # the test module is not part of the model
     cut = re.search(r"#\[cfg\(all\(test, any\(unit_test, feature = \"shuttle\"\)\)\)\]\s*mod test \{", t)
     code = t[:cut.start()] if cut else t
+    # the test-only single-access accessors added for the replay suite (repo commit "verif hooks: …
+    # accessors on OrderingSender") are not part of the modelled code, but what each of them does
+    # is pinned: the replay suite is only as good as "one accessor = one access"
+    acc = re.search(r"#\[cfg\(all\(test, feature = \"ipa-verif\"\)\)\]\s*impl OrderingSender \{", code)
+    if acc:
+        _, acc_body = fn_body(code, r"#\[cfg\(all\(test, feature = \"ipa-verif\"\)\)\]\s*impl OrderingSender \{")
+        end = code.index(acc_body, acc.end() - 1) + len(acc_body) + 1
+        ab = norm(acc_body)
+        want_acc = [
+            ("next_load", "pub(super) fn verif_next_load(&self) -> usize { self.next.load(Acquire) }"),
+            ("next_fetch_add", "pub(super) fn verif_next_fetch_add(&self) -> usize { self.next.fetch_add(1, AcqRel) }"),
+            ("waiting_add", "pub(super) fn verif_waiting_add(&self, curr: usize, i: usize, w: &Waker) -> bool { self.waiting.add(curr, i, w).is_ok() }"),
+            ("waiting_wake", "pub(super) fn verif_waiting_wake(&self, i: usize) { self.waiting.wake(i); }"),
+            ("state_write", "pub(super) fn verif_state_write<M: Message>(&self, m: &M, cx: &Context<'_>) -> Poll<()> { let b = &mut self.state.lock().unwrap(); assert!(!b.is_closed(), \"writing on a closed stream\"); b.write(m, cx) }"),
+            ("state_close", "pub(super) fn verif_state_close(&self) { self.state.lock().unwrap().close(); }"),
+            ("state_take", "pub(super) fn verif_state_take(&self, cx: &Context<'_>) -> (Poll<Vec<u8>>, bool) { let mut b = self.state.lock().unwrap(); let r = b.take(cx); (r, b.is_closed()) }"),
+        ]
+        for nm, want in want_acc:
+            item = "buffers.atomic.accessor." + nm
+            if want in re.sub(r"///[^\n]*", "", ab) or want in ab:
+                record(item, REL, code, acc, "one access, as modelled")
+            else:
+                fail(item, f"accessor verif_{nm} no longer performs exactly the modelled access: expected `{want}`")
+        code = code[:acc.start()] + code[end:]
+    else:
+        fail("buffers.atomic.accessor", "the test-only accessor block `#[cfg(all(test, feature = \"ipa-verif\"))] impl OrderingSender` is missing (repo commit `verif hooks: … accessors on OrderingSender`)")
     code_nc = re.sub(r"//[^\n]*", "", code)
 
     # ---- generated: woken_at update and add rejection --------------------------------------------
